@@ -60,20 +60,24 @@ class RecPool(sprocess.EventListenerPool):
 
 class RecPoolConfig(env.EventListenerPoolConfig):
     """the real pool configuration; make_group (called by Supervisor.add_process_group) builds the recording pool"""
-    _rec = None
+    _world = None
     _index = None
 
     def make_group(self):
+        w = self._world
+        w._ensure_recorders()                    # events.clear() of a new daemon life removed them
+        w.effs.append('ERegroup %d' % self._index)
         g = RecPool(self)
-        g.rec = self._rec
+        g.rec = w._on_accept
         g.index = self._index
         return g
 
 
 class World(object):
-    def __init__(self, pool_cfgs, handler_kind=0, gserial=-1):
+    def __init__(self, pool_cfgs, handler_kind=0, gserial=-1, strip_ansi=False):
         """pool_cfgs: list of (pool_events class-name list, buffer_size, nlisteners, initial pool serial, priority[, process-name prefix])"""
         self.options = env.fresh_world()
+        self.options.strip_ansi = bool(strip_ansi)
         sprocess.GlobalSerial.serial = gserial
         self.effs = []
         self.cur = None
@@ -87,8 +91,7 @@ class World(object):
             if event is not None:
                 self.effs.append('EAcked %d %d %s' % (self.cur[0], self.cur[1], zlit(event.vid)))
         # recorders first, so that they run before the pools' callbacks
-        events.subscribe(events.Event, self._on_event)
-        events.subscribe(events.EventRejectedEvent, self._on_rejected)
+        self._ensure_recorders()
         from supervisor.supervisord import Supervisor
         self.sup = Supervisor(self.options)      # the real add_process_group / remove_process_group
         self.handler = handler
@@ -115,6 +118,11 @@ class World(object):
         self.errors_seen = 0
 
     # ---- recorders
+    def _ensure_recorders(self):
+        for entry in ((events.EventRejectedEvent, self._on_rejected), (events.Event, self._on_event)):
+            if entry not in events.callbacks:
+                events.callbacks.insert(0, entry)
+
     def _vid(self, ev):
         if not hasattr(ev, 'vid'):
             ev.vid = self.next_vid
@@ -164,7 +172,7 @@ class World(object):
             self._vid(ev)
             events.notify(ev)
             return list(self.effs)
-        pi = op[1]
+        pi = op[1] if len(op) > 1 else None
         if kind == 'remove':
             if pi >= len(self.pools) or self.sup.process_groups.get(self.names[pi]) is not self.pools[pi].group:
                 return ['EInapplicable']
@@ -181,9 +189,9 @@ class World(object):
             subs, bufsize, nl, _ps, prio = c[:5]
             prefix = c[5] if len(c) > 5 and c[5] else None
             k = len(self.pools)
-            RecPoolConfig._rec, RecPoolConfig._index = self._on_accept, k
 
             def maker(gcfg):
+                gcfg._world, gcfg._index = self, k
                 assert self.sup.add_process_group(gcfg)
                 return self.sup.process_groups[gcfg.name]
             p = env.Pool(self.options, self.names[pi], nl, buffer_size=bufsize,
@@ -193,7 +201,37 @@ class World(object):
             self.pools.append(p)
             self.names.append(self.names[pi])
             self.cfgs.append(tuple(c[:3]) + (-1,) + tuple(c[4:]))
-            return ['ERegroup %d' % k] + list(self.effs)
+            return list(self.effs)
+        if kind == 'restart':
+            # a new daemon life in the same process: a new Supervisor runs the real run() over the same
+            # configuration (new config, pool and listener objects); runforever returns at once
+            from supervisor.supervisord import Supervisor
+            live = [k for k in range(len(self.pools))
+                    if self.sup.process_groups.get(self.names[k]) is self.pools[k].group]
+            newpools = []
+            for src in live:
+                c = self.cfgs[src]
+                subs, bufsize, nl, _ps, prio = c[:5]
+                prefix = c[5] if len(c) > 5 and c[5] else None
+                k = len(self.pools) + len(newpools)
+                p = env.Pool(self.options, self.names[src], nl, buffer_size=bufsize,
+                             pool_events=[getattr(events, n) for n in subs], handler=self.handler, priority=prio,
+                             proc_priority=(800 + k) if prefix else 999, proc_prefix=prefix,
+                             gconfig_class=RecPoolConfig, defer=True)
+                p.gconfig._world, p.gconfig._index = self, k
+                newpools.append((src, p))
+            self.options.process_group_configs = [p.gconfig for _, p in newpools]
+            sup = Supervisor(self.options)
+            sup.runforever = lambda: None
+            sup.run()
+            self.sup = sup
+            for src, p in newpools:
+                p.attach(sup.process_groups[p.gconfig.name])
+                self.pools.append(p)
+                self.names.append(self.names[src])
+                self.cfgs.append(tuple(self.cfgs[src][:3]) + (-1,) + tuple(self.cfgs[src][4:]))
+            self.restarted = [src for src, _ in newpools]
+            return list(self.effs)
         if pi >= len(self.pools):
             return ['EInapplicable']
         if self.sup.process_groups.get(self.names[pi]) is not self.pools[pi].group:
